@@ -356,6 +356,8 @@ pub fn c01_families(tier: &str) -> Vec<SeqSpec> {
     // R: every second write rotates, so with the lazy policy reads happen while an immutable
     // memtable (e.g. holding a tombstone above a flushed value) is pending
     v.push(spec("F-fill/R", &["R"], k3(), a1(), if t { 6 } else { 4 }, READS).lazy());
+    // zero as the file-size and block-size limit, zero Bloom bits per key
+    v.push(spec("F-flush/Z", &["Z", "Zb0"], k3(), { let mut a = a1(); a.extend(reopen_ops(2)); a }, if t { 5 } else { 3 }, READS).flush());
     // a memtable budget of one byte: every write rotates (also an empty memtable)
     v.push(spec("F-fill/M0", &["M0", "M0n"], k3(), { let mut a = a1(); a.extend(reopen_ops(2)); a }, if t { 5 } else { 3 }, READS).lazy());
     if t {
